@@ -180,6 +180,33 @@ pub fn scn_reset(o: &Opts, tr: &mut Tr, prop: &str) {
         }
         if i >= n { tr.release(mm); }
     }
+    // --- ZeroReset / FullReset promise a zeroed window: a follow-up stream whose first match reaches
+    // before its own start (the wrapper then reads the window's previous contents) must see the same
+    // bytes as on a new state, also after a history of more than one window. (MinReset documents that
+    // it keeps the old window; it is not part of this comparison.)
+    for k in 0..(if o.thorough { 12 } else { 4 }) {
+        let hist = gen::data(["period300", "text", "rand", "period20000"][k % 4], 40_000 + 9000 * k, &mut r);
+        let cfg = Cfg { zlib: false, level: [6u8, 1, 0, 9][k % 4], strat: 0, wbits: 15, api: "params" };
+        let hz = crate::scn_dec::make_stream(&hist, &cfg, false, &mut r);
+        let mut e = gen::Enc::new();
+        e.begin_fixed(true);
+        e.lit(b'x');
+        e.p.extend(std::iter::repeat(0u8).take(40_000));   // pretend history so that the encoder accepts the distance
+        e.mat(50, [100usize, 5000, 32000][k % 3]);
+        e.end_block();
+        let (fz, _) = e.finish();
+        tr.case(&format!("rs-zero-{}", k), prop, json!({"hist": hz.len()}));
+        for pol in 1..3 {
+            let mut s = InflateState::new_boxed(DataFormat::Raw);
+            let _ = run_inf(&mut s, &hz, 77 + k as u64, 100_000);
+            if pol == 1 { s.reset_as(ZeroReset) } else { s.reset_as(FullReset(DataFormat::Raw)) }
+            let mut t = InflateState::new_boxed(DataFormat::Raw);
+            let fs = 1000 + k as u64;
+            let ra = run_inf(&mut s, &fz, fs, 300);
+            let rb = run_inf(&mut t, &fz, fs, 300);
+            let _ = pairs(tr, ["", "inflate_window_after_ZeroReset_vs_fresh", "inflate_window_after_FullReset_vs_fresh"][pol], &ra, &rb);
+        }
+    }
     // --- C deflate stream reset
     for i in 0..(n / 2) {
         use miniz_oxide_c_api::*;
